@@ -32,6 +32,7 @@ def encode : Ty → Val → Bytes
   | .str, .bytes bs => compact bs.length ++ bs
   | .bytes, .bytes bs => compact bs.length ++ bs
   | .box _ t, v => encode t v
+  | .wrap t, v => encode t v
   | .duration, .seq [.nat secs, .nat nanos] => leBytes 8 secs ++ leBytes 4 nanos
   | .range t, .seq [a, b] => encode t a ++ encode t b
   | .bitseq store msb, .bits bs =>
@@ -112,6 +113,7 @@ def encodeTo : Ty → Val → Res Bytes
   | .str, .bytes bs => (encodeLen bs.length).map (· ++ bs)        -- `self.as_bytes().encode_to`
   | .bytes, .bytes bs => (encodeLen bs.length).map (· ++ bs)
   | .box _ t, v => encodeTo t v
+  | .wrap t, v => encodeTo t v
   | .duration, .seq [.nat secs, .nat nanos] => .ok (leBytes 8 secs ++ leBytes 4 nanos)
   | .range t, .seq [a, b] => (encodeTo t a).bind fun x => (encodeTo t b).map (x ++ ·)
   | .bitseq store msb, .bits bs =>
